@@ -34,6 +34,7 @@ def handle : List String → String
   | ["buf", bs, d, sc] =>
     match bs.toNat?, Hex.dec d, parseScript sc with
     | some m, some data, some script =>
+      if m ≤ 1 then "panic" else   -- NewBuffered: panic("Buf length must be > 1")
       let fuel := data.length + script.length + 3
       let r := Buf.scanAll fuel fuel (Buf.init m ⟨data, script⟩)
       render r.1 r.2.1 r.2.2.errs r.2.2.arrays
@@ -52,6 +53,7 @@ def handle : List String → String
     match bs.toNat?, Hex.dec d, parseScript sc with
     | some n, some data, some script =>
       let fuel := data.length + script.length + 3
+      if kind ≠ "imm" && n ≤ 1 then "panic" else
       if kind = "imm" then
         let r := Imm.scanAll fuel fuel (Imm.init n ⟨data, script⟩)
         render r.1 r.2.1 r.2.2.errs r.2.2.arrays ++ s!" z=0 again={if r.2.1 then 1 else 0}"
